@@ -384,6 +384,11 @@ func runsFor(prop, tier string) []run {
 				c.MaxWrites, c.MaxSnaps, c.MaxReads = 4, 3, 2
 				return c
 			}(), pick(4, 6), minutes(pickf(0.6, 5))},
+			// real replicas (real replica/rest router, its per-state action map included) and the real rebuild task under gate
+			// control: a volume snapshot requested in every gap of a rebuild - among them the window in which the controller
+			// already counts the joiner as RW while the replica still answers as "rebuilding" and refuses the action
+			{"rf3-snapshot-in-every-gap-of-a-real-rebuild", eb.Cfg{RF: 3, N: 3, Alphabet: []string{"RB", "Step", "Snap0"}, Oracles: []string{"c13", "c18", "c07", "c04"}, Drain: true, Real: true,
+				MaxWrites: 2, MaxSnaps: 1, MaxAdds: 3, InitOps: append(append([]string{}, rw2...), "W:0", "W:0")}, pick(28, 30), minutes(pickf(0.7, 5))},
 			{"rf2-volume-revert-through-rest", func() eb.Cfg {
 				c := mk(2, append(append([]string{}, rw2...), "W:0", "Snap:0", "W:0"))
 				c.Alphabet = []string{"Revert", "W0", "Snap", "R", "MonWake", "Remove", "Add", "Sync", "Verify", "ERR"}
